@@ -80,6 +80,13 @@ Theorem C38_forwarded_context_is_callers :
     sub_extend_context fwd k = fwd k.
 Proof. exact forwarded_context_is_callers. Qed.
 
+(** the mode is part of the cache identity of the job that starts the sub-scheduler *)
+Theorem C38_root_key_separates_modes :
+  forall a b : rtarg -> Z,
+    root_key shipped_config_args a = root_key shipped_config_args b ->
+    a AExpr = b AExpr /\ a ANewExecution = b ANewExecution /\ a AExportOptions = b AExportOptions.
+Proof. exact root_key_separates_modes. Qed.
+
 (** (b) Job rows *)
 Theorem C38_extend_jobs_same_execution :
   forall ops r, In r (sub_rows shipped_wiring false ops) -> r_exec r = ECaller.
@@ -139,6 +146,7 @@ Print Assumptions C38_subrun_eq_direct.
 Print Assumptions C38_replayed_dict_eq_direct.
 Print Assumptions C38_then_never_silent.
 Print Assumptions C38_forwarded_context_is_callers.
+Print Assumptions C38_root_key_separates_modes.
 Print Assumptions C38_extend_jobs_same_execution.
 Print Assumptions C38_extend_jobs_under_caller.
 Print Assumptions C38_extend_root_is_child_of_caller.
